@@ -7,7 +7,8 @@ CFG = {
                           "RpmVerif.C14.once_counterexample", "RpmVerif.C14.write_failure_offset",
                           "RpmVerif.C14.grouping_independent", "RpmVerif.C14.read_chunk_indep",
                           "RpmVerif.C14.payload_starts_at", "RpmVerif.C14.truncated_is_error",
-                          "RpmVerif.C14.write_file_prefix_or_all", "RpmVerif.C14.write_file_old_witness"],
+                          "RpmVerif.C14.write_file_prefix_or_all", "RpmVerif.C14.write_file_old_witness",
+                          "RpmVerif.C14.write_file_then_open", "RpmVerif.C14.open_write_file_open"],
     "trivial_branches": ["noparse"],
     "rule": "scripted Write sinks (accept-all, 1 byte, fixed k in {2,3,7,16,17,...}, seeded random sizes 1..=17, Interrupted every j-th call, "
             "permanent hard error / permanent Ok(0) / one transient hard error once N bytes are in) against Package::write and PackageMetadata::write: EVERY failure offset 0..=len of a ~1.2 KiB "
@@ -20,6 +21,9 @@ CFG = {
             "permanent / Ok(0) / transient failure at every 5th (quick) / every (thorough) offset, and the REAL Package::write_file(path) in a forked child "
             "whose RLIMIT_FSIZE stops the file after N bytes (SIGXFSZ ignored: partial write, then EFBIG) for every 13th (quick) / every (thorough) N on the "
             "~1.2 KiB package (fits the 8 KiB buffer: only the final flush can fail) and a strided sweep on a ~20 KiB one (buffer flushes and direct writes). "
+            "Since AUDIT2 follow-up 1 the real write_file also gets its path as &str / &Path / String, a destination that ALREADY EXISTS with 0 / 1 / len-1 / len / len+1 / 8192 / 2*len+7 ... bytes of 0xAA "
+            "(File::create must truncate: ok => the file is exactly the canonical bytes, err under RLIMIT_FSIZE => a prefix of them, never old bytes), and destinations that cannot be created "
+            "(missing parent directory, an existing directory: err, nothing written, nothing created); the default BufReader capacity 8192 over scripted sources on the ~20 KiB package, whole and cut at 8191 / 8192 / 8193. "
             "Non-trivial = the package parses; distinct = distinct request lines.",
     "exhaustive": False,
     "shrink": False,
@@ -38,7 +42,9 @@ CFG = {
                   "(read_exact / take().read_to_end / read_to_end models) equals the list-level parser of C01 (read_chunk_indep); an accepted input cut anywhere before "
                   "its payload offset is rejected with the end-of-input error (truncated_is_error). Package::write_file (BufWriter of any capacity around a file of ANY behaviour, "
                   "explicit flush, drop) leaves a prefix of the canonical bytes in the file and all of them when it returns Ok (write_file_prefix_or_all); before fix d2dbd7b it returned Ok "
-                  "with nothing written on a full device (write_file_old_witness). Tied to the code by a differential run with scripted sinks and sources.",
+                  "with nothing written on a full device (write_file_old_witness). write_file_then_open / open_write_file_open: for every package, every BufWriter capacity, every file behaviour under which write_file returns Ok and every chunking of the "
+                  "BufReader, Package::open of the written file equals Package::parse of the bytes Package::write emits (the write + re-parse step of C10), and for a value parsed from any source kind the file "
+                  "holds its canonical bytes and opens to the same value. Tied to the code by a differential run with scripted sinks and sources (and real files: wfile, C01 openrt01, C10 step W).",
     "level_note": "Trusted: Lean kernel; std's write_all/read_exact/read_to_end contracts as modelled; model fidelity as exercised (result class, emitted length and hash "
                   "compared on every case; spec verdict computed from the canonical bytes alone).",
 }
